@@ -1211,11 +1211,13 @@ func (sdb *DbSqlite) userCheck(email, password string) (data.Nodes, error) {
 			return false, err
 		}
 
+	NextEdge:
 		for _, e := range edges {
-			// make sure edge is not tombstone
+			// make sure edge is not tombstone, if it is, the node
+			// may still be attached somewhere else
 			for _, p := range e.Points {
 				if p.Type == data.PointTypeTombstone && p.Value != 0 {
-					return false, nil
+					continue NextEdge
 				}
 			}
 
